@@ -105,3 +105,26 @@ Theorem C08_slave_follows_master_state : forall n orc now,
   no_strategy (n_opts n) = true -> check_master n = Ok true -> is_master n = false ->
   exists n' o, fsm_next n orc now = Ok (n', o, master_state n) /\ presf n n'.
 Proof. exact slave_follows_master_state. Qed.
+
+(* total form of regression 2: under the same hypotheses FiniteStateMachine.next succeeds (no exception, loop bounded) *)
+Theorem C08_election_slave_total : forall n orcs now,
+  own_wf n -> fsm_state n = ELECTION -> local_running n = true -> quiet n -> no_strategy (n_opts n) = true ->
+  stable_after n = true -> check_master n = Ok true -> is_master n = false -> master_beyond n = true ->
+  exists n' outs, fsm_run n orcs now = Ok (n', outs) /\ In (fsm_state n') [DISTRIBUTION; OPERATION; CONCILIATION].
+Proof. exact election_slave_total. Qed.
+
+(* the loop of FiniteStateMachine.set_state does NOT always terminate under SupvisorsOptions.check_options alone
+   (TIMEOUT -> CONTINUE), even with a constant oracle: STRICT + CORE + RESYNC, declared instances all RUNNING and
+   stable, core instances not all RUNNING *)
+Theorem C08_set_state_terminates_refuted :
+  exists n orcs now,
+    (o_timeout (n_opts n) = true -> o_fstrategy (n_opts n) = FS_CONTINUE) /\
+    own_wf n /\ views_keyed n /\ quiet n /\ local_running n = true /\
+    (forall a b, In a orcs -> In b orcs -> a = b) /\
+    fsm_run n orcs now = Crash OutOfFuel.
+Proof. exact set_state_terminates_refuted. Qed.
+
+(* ... and it is a genuine cycle SYNCHRONIZATION <-> ELECTION: no amount of fuel suffices *)
+Theorem C08_set_state_livelock : forall fuel acc,
+  set_state fuel lv_S (Some ELECTION) [px_orc] 100 acc = Crash OutOfFuel.
+Proof. exact set_state_livelock. Qed.
